@@ -43,6 +43,8 @@ def run(ctx, sess, P, G, T, reach, roots, exc):
     ctx.rule('C10.19', 'a successful realloc is never dropped: on every path on which the result is not NULL it is stored back into the field it was taken from before the function returns or indexes that field (the old block may already be freed)')
     ctx.rule('C10.20', 'bisection stays inside the array: in a search loop `lo < hi` that probes x[mid] with mid = (lo + hi + 1) / 2 (which can equal hi), the initial hi is length - 1, not length')
     ctx.rule('C10.21', 'bounded appends: every entries[entry_count++] store into the fixed-size index and summary buffers of the time-series writer is preceded on every path by a compare of that entry_count with the allocated capacity')
+    ctx.rule('C10.22', 'count-bounded writes: in a count-down loop (`while (n)` with n decremented in the body) every store through a pointer that the loop advances is separated from every decrement of n by the loop test, so that no byte is written once the count has reached 0')
+    ctx.rule('C10.23', 'scratch capacity agrees with its fill bound: a buffer from jls_core_f64_buf_alloc(N) is handed to a filler only with the count N, and is appended to only through a counter that is reset (together with a counter advanced at least as often) when that counter reaches N')
     ctx.rule('C10.12', 'no read of uninitialised instance memory: every field of a malloc\'ed instance that is read anywhere is initialised before the instance is published')
     r4(ctx, P)
     r5(ctx, P, reach)
@@ -63,6 +65,8 @@ def run(ctx, sess, P, G, T, reach, roots, exc):
     c10c.r19(ctx, P)
     c10c.r20(ctx, P)
     c10c.r21(ctx, P)
+    c10c.r22(ctx, P)
+    c10c.r23(ctx, P)
 
 
 def r4(ctx, P):
